@@ -156,8 +156,11 @@ fn spec(cap: u32, weak: bool) -> impl Fn(&St, &Op) -> Option<St> {
                 }
             }
             Op::Recover { who, target, got, then_lock } => {
+                // `recover` frees the cells of the target one by one, so the indices it hands back are
+                // separate events of one call (competing recoverers each get a part); that together
+                // they get exactly what the dead owner held is checked at quiescence
                 let owned: Vec<u32> = (0..cap).filter(|i| s.owner[*i] == *target).map(|i| i as u32).collect();
-                if owned != *got {
+                if !got.iter().all(|g| owned.contains(g)) {
                     return None;
                 }
                 for i in got {
@@ -312,14 +315,12 @@ impl Subject for Robust {
         let mut got: Vec<u32> = Vec::new();
         let st = self.set.recover(
             mode(lock_if_last),
-            |o, i| {
-                if o == t {
-                    about_to_free(i as u32);
-                }
-                o == t
-            },
+            |o, _i| o == t,
             |o, i| {
                 ixmc::check!(o == t, "recover of owner {target} reported index {i} of another owner {o:?}");
+                // called after the cell was freed (the predicate runs BEFORE the freeing CAS, which
+                // may still fail when a competing recoverer was faster and the index has a new owner)
+                about_to_free(i as u32);
                 got.push(i as u32)
             },
         );
@@ -540,6 +541,10 @@ struct Ctx {
     s: Arc<dyn Subject>,
     rec: Rec,
     tab: Table,
+    /// everything any `recover` of the dead owner handed back (several recoverers may compete)
+    recovered: std::sync::Mutex<Vec<u32>>,
+    /// set once thread 1 (the owner that "dies" in the recover cases) has been joined
+    dead: std::sync::atomic::AtomicBool,
 }
 
 impl Ctx {
@@ -553,7 +558,11 @@ impl Ctx {
             return None;
         }
         let prev = self.tab.slot[i as usize].swap(who, StdOrdering::SeqCst);
-        ixmc::check!(prev == 0, "index {i} was handed to {} while {} still holds it", hn(who), hn(prev));
+        // the mark of the dead owner (thread 1 of the recover cases) may still be there when the
+        // index was recovered a moment ago; that the index was really recovered before it was
+        // handed out again is checked by the linearizability oracle
+        let dead_mark = prev == 1 && self.dead.load(StdOrdering::SeqCst);
+        ixmc::check!(prev == 0 || dead_mark, "index {i} was handed to {} while {} still holds it", hn(who), hn(prev));
         self.s.on_acquired(who, i);
         Some(i)
     }
@@ -590,17 +599,19 @@ impl Ctx {
                     let lock = *p == P::RecoverFirstLock;
                     // the owner table entry is cleared right before the set frees the cell (once
                     // the cell is free another thread may legitimately be handed the index)
+                    // the cell is already free when this runs, so a new owner may have entered its
+                    // name into the table in the meantime: only the dead owner's mark is cleared
                     let about_to_free = |i: u32| {
                         if i < self.s.capacity() {
-                            let prev = self.tab.slot[i as usize].swap(0, StdOrdering::SeqCst);
-                            ixmc::check!(prev == 1, "recover of dead owner 1 takes index {i} away from holder {prev}");
+                            let _ = self.tab.slot[i as usize].compare_exchange(1, 0, StdOrdering::SeqCst, StdOrdering::SeqCst);
                         }
                     };
                     let (got, _) = self.rec.call(
                         || self.s.recover(1, lock, &about_to_free),
                         |(g, l)| {
-                            let mut ops = vec![Op::Recover { who, target: 1, got: g.clone(), then_lock: lock }];
+                            let mut ops: Vec<Op> = g.iter().map(|i| Op::Recover { who, target: 1, got: vec![*i], then_lock: false }).collect();
                             if lock {
+                                ops.push(Op::Recover { who, target: 1, got: vec![], then_lock: true });
                                 ops.push(Op::RecLock { who, locked: *l, recovered_any: !g.is_empty() });
                             }
                             ops
@@ -609,10 +620,15 @@ impl Ctx {
                     let want = dead_held.expect("harness: recover without a dead thread");
                     let mut want = want.to_vec();
                     want.sort();
-                    ixmc::check!(
-                        got == want,
-                        "recover of the dead owner returned {got:?}, but the owner died holding exactly {want:?}"
-                    );
+                    // several recoverers of one dead owner share its indices between them: each
+                    // gets a subset, an index goes to exactly one of them, together they get all
+                    let mut all = self.recovered.lock().unwrap();
+                    for i in &got {
+                        ixmc::check!(want.contains(i), "recover of the dead owner returned index {i}, but the owner died holding exactly {want:?}");
+                        ixmc::check!(!all.contains(i), "recover handed index {i} of the dead owner back twice (to two recoverers)");
+                        all.push(*i);
+                    }
+                    drop(all);
                     if !got.is_empty() {
                         ixmc::note("recovered-nonempty");
                     }
@@ -630,7 +646,7 @@ impl Ctx {
 /// (they start in that thread's held list, oldest first).
 fn body(kind: Kind, cap: usize, progs: Vec<Vec<P>>, pre: Vec<usize>, late_third: bool) -> impl Fn() + Send + Sync + 'static {
     move || {
-        let ctx = Arc::new(Ctx { s: make(kind, cap), rec: Rec::new(), tab: Table::new() });
+        let ctx = Arc::new(Ctx { s: make(kind, cap), rec: Rec::new(), tab: Table::new(), recovered: std::sync::Mutex::new(Vec::new()), dead: std::sync::atomic::AtomicBool::new(false) });
         let mut init: Vec<Vec<u32>> = vec![Vec::new(); progs.len()];
         for (k, n) in pre.iter().enumerate() {
             for _ in 0..*n {
@@ -646,13 +662,27 @@ fn body(kind: Kind, cap: usize, progs: Vec<Vec<P>>, pre: Vec<usize>, late_third:
             let ctx = ctx.clone();
             hs.push(ixmc::spawn(move || ctx.run(&prog, None, held)));
         }
+        let mut dead_held_at_death: Option<Vec<u32>> = None;
         if late_third {
             let dead = hs.remove(0).join();
-            let (ctx2, prog, held) = (ctx.clone(), progs[2].clone(), init[2].clone());
-            hs.push(ixmc::spawn(move || ctx2.run(&prog, Some(&dead), held)));
+            ctx.dead.store(true, StdOrdering::SeqCst);
+            for k in 2..progs.len() {
+                let (ctx2, prog, held, dead) = (ctx.clone(), progs[k].clone(), init[k].clone(), dead.clone());
+                hs.push(ixmc::spawn(move || ctx2.run(&prog, Some(&dead), held)));
+            }
+            dead_held_at_death = Some(dead);
         }
         for h in hs {
             h.join();
+        }
+
+        if let Some(mut want) = dead_held_at_death {
+            if progs.iter().skip(2).any(|p| p.iter().any(|x| matches!(x, P::RecoverFirst | P::RecoverFirstLock))) {
+                want.sort();
+                let mut all = ctx.recovered.lock().unwrap().clone();
+                all.sort();
+                ixmc::check!(all == want, "recover of the dead owner handed back {all:?} in total, but the owner died holding exactly {want:?}");
+            }
         }
 
         // ---- quiescence: drain probe by the main thread
@@ -808,6 +838,9 @@ fn main() {
         Spec { late_third: true, ..sp("cap3/recover:aar|ar|R", 3, &[&[A, A, RelOld], &[A, RelOld], &[RecoverFirst]], &[Robust], &["recovered-nonempty"]) },
         Spec { late_third: true, ..sp("cap2/recover-lock:a|ar|La", 2, &[&[A], &[A, RelOld], &[RecoverFirstLock, A]], &[Robust], &["recovered-nonempty", "locked", "acquire-failed-locked"]) },
         Spec { late_third: true, ..sp("cap1/recover:a|aa|Ra", 1, &[&[A], &[A, A], &[RecoverFirst, A]], &[Robust], &["recovered-nonempty", "acquire-failed-when-full"]) },
+        // two processes clean up the same dead owner at once while a third one acquires
+        Spec { late_third: true, ..sp("cap1/recover2:a|aa|R|R", 1, &[&[A], &[A, A], &[RecoverFirst], &[RecoverFirst]], &[Robust], &["recovered-nonempty"]) },
+        Spec { late_third: true, ..sp("cap2/recover2:aa|a|Ra|R", 2, &[&[A, A], &[A], &[RecoverFirst, A], &[RecoverFirst]], &[Robust], &["recovered-nonempty"]) },
     ];
     let mut cases: Vec<(bool, Case)> = Vec::new();
     for sp in specs {
@@ -820,15 +853,18 @@ fn main() {
             };
             // heavy: three threads that all run from the start (~15x the schedules of a two-thread
             // case); medium: three threads of which one starts late, two threads with six operations
-            let heavy = sp.progs.len() == 3 && !sp.late_third;
+            let four = sp.progs.len() >= 4;
+            let heavy = (sp.progs.len() == 3 && !sp.late_third) || four;
             let medium = sp.late_third || sp.progs.iter().map(|p| p.len()).sum::<usize>() >= 6;
             cases.push((
                 heavy,
                 Case {
                     name: format!("{kname}/{}", sp.name),
                     cfg: cfg.clone(),
-                    quick: pb(&[(0, 0), (1, 0), (2, 0), (1, 1)]),
-                    thorough: if heavy {
+                    quick: if four { pb(&[(0, 0), (1, 0), (1, 1)]) } else { pb(&[(0, 0), (1, 0), (2, 0), (1, 1)]) },
+                    thorough: if four {
+                        pb(&[(0, 0), (1, 0), (2, 0), (1, 1)])
+                    } else if heavy {
                         pb(&[(0, 0), (1, 0), (2, 0), (3, 0), (2, 1)])
                     } else if medium {
                         pb(&[(0, 0), (1, 0), (2, 0), (3, 0), (2, 1), (3, 1), (2, 2)])
